@@ -123,6 +123,8 @@ def py_f(f, x):
         return None
     if f == "double":
         return x * 2
+    if f == "inc":  # (only used in place: `values += 1`)
+        return x + 1
     if f == "upper":
         return x.upper()
     if f == "not":
@@ -166,6 +168,8 @@ def _np_f(f, arr):
 
     if f == "double":
         return arr * 2
+    if f == "inc":
+        return arr + 1
     if f == "upper":
         return numpy.char.upper(arr)
     if f == "not":
@@ -187,7 +191,7 @@ def f_applicable(f, values):
     ks = {type(v) for v in values if v is not None}
     if f == "id":
         return True
-    if f == "double":
+    if f in ("double", "inc"):
         return ks <= {int, float} and all(v is None or isinstance(v, float) or abs(v) < 2**61 for v in values)
     if f == "upper":  # the driver's mirror is ASCII upper-casing
         return ks <= {str} and all(v is None or v.isascii() for v in values)
@@ -514,6 +518,16 @@ def declared_sequence_variants(b, vs):
         yield dict(b, type_name=t, via="from_dict")
 
 
+def map_fn(op):
+    """The element-wise function an op applies to the stored values (replacing them `map:`, in place `imap:`,
+    item by item `iset:`), or None."""
+    if isinstance(op, str):
+        for pre in ("map:", "imap:", "iset:"):
+            if op.startswith(pre):
+                return op[len(pre):]
+    return None
+
+
 def ops_of(case):
     """The sequence of uses of the one column object (the plain case: expand once)."""
     if "ops" in case:
@@ -556,11 +570,26 @@ def ops_valid(case, xs):
             if enc not in ("const", "func") or not op[4:].isdigit() or int(op[4:]) > 200000:
                 return False
             continue
-        if op == "imap:double":
+        if op in ("imap:double", "imap:inc"):
             if enc == "func" or case.get("container", "list").startswith("array:") or not f_applicable("double", cur) \
                     or any(v is None for v in cur):
                 return False
-            cur = [py_f("double", x) for x in cur]
+            cur = [py_f(op[5:], x) for x in cur]
+            continue
+        if op.startswith("iset:"):
+            # a dtype-preserving function written into the stored array item by item
+            f = op[5:]
+            if enc == "func" or "mix" in case or case.get("container", "list").startswith("array:") \
+                    or f not in ("double", "upper", "not") or not f_applicable(f, cur):
+                return False
+            cur = [py_f(f, x) for x in cur]
+            continue
+        if op.startswith("edit:"):
+            # the caller edits the expansion it was given last (needs one; dtype-preserving function)
+            f = op[5:]
+            if "mix" in case or case.get("container", "list").startswith("array:") or f not in ("double", "upper", "not") \
+                    or not f_applicable(f, cur) or "mat" not in ops[: ops.index(op)]:
+                return False
             continue
         if op.startswith("map:"):
             f = op[4:]
@@ -576,6 +605,8 @@ def ops_valid(case, xs):
 
 def has_model(case):
     if case.get("f") in DTYPE_FUNCS or "ops" in case or "default_np" in case:
+        return False
+    if has_neg_zero(case):
         return False
     if "mix" in case:
         # a list mixing classes: the model brings the elements to numpy's common dtype where the class does
@@ -721,6 +752,27 @@ def build_decoy(schema, case):
         build_column(schema, c3).materialize()
 
 
+def aliasing(numpy, col, m, earlier):
+    """How the expansion `m` is tied to anything but itself: names of the column's stored arrays it shares memory
+    with, earlier expansions it shares memory with, elements sharing one cell (a zero-stride view), read-only."""
+    res = []
+    for name in ("values", "encoding", "indices", "lengths"):
+        try:
+            a = getattr(col, name, None)
+        except TypeError:  # (FunctionColumn.values)
+            continue
+        if isinstance(a, numpy.ndarray) and numpy.shares_memory(m, a):
+            res.append("stored:" + name)
+    for j, e in enumerate(earlier):
+        if numpy.shares_memory(m, e):
+            res.append("expansion:%d" % j)
+    if m.ndim == 1 and len(m) > 1 and abs(m.strides[0]) < m.itemsize:
+        res.append("cells-shared")
+    if not m.flags.writeable:
+        res.append("read-only")
+    return res
+
+
 def run_impl(case):
     """Encode on the real class, then the case's sequence of uses of that one object (expand; map
     the stored values; expand again; ...)."""
@@ -750,6 +802,7 @@ def run_impl(case):
             elif enc == "const":
                 out["values"], out["vkind"] = canon(col.values), kind_of(col.values)
             mats = []
+            live = []  # the expansions handed out so far, kept alive: they are read again at the end
             for k, op in enumerate(ops_of(case)):
                 at = "%d:%s" % (k, op)
                 if op == "mat":
@@ -757,6 +810,9 @@ def run_impl(case):
                     if not isinstance(m, numpy.ndarray):
                         m = numpy.asarray(m)
                     mats.append({"mat": canon(m), "mkind": kind_of(m)})
+                    mats[-1]["held"] = mats[-1]["mat"]  # (what the caller holds: the expansion, until the caller edits it)
+                    live.append(m)
+                    mats[-1]["alias"] = aliasing(numpy, col, m, live[:-1])
                     if enc != "func":
                         vdt = numpy.asarray(col.values).dtype
                         ddt = numpy.asarray(col.default_value).dtype if enc == "sparse" else None
@@ -768,6 +824,32 @@ def run_impl(case):
                     if len(col.values) or col.values.dtype.kind in "iuf":  # (an empty stored array may be of any dtype)
                         col.values *= 2
                     out["mapped"] = canon(col.values)
+                elif op == "imap:inc":
+                    if len(col.values) or col.values.dtype.kind in "iuf":
+                        col.values += 1
+                    out["mapped"] = canon(col.values)
+                elif op.startswith("iset:"):
+                    # the function written into the stored array item by item (`values[i] = f(values[i])`)
+                    new = np_f(op[5:], col.values)
+                    for i in range(len(col.values)):
+                        col.values[i] = new[i]
+                    out["mapped"] = canon(col.values)
+                elif op.startswith("edit:"):
+                    # the caller edits the expansion it was given last: it is the caller's array
+                    m = live[-1]
+                    try:
+                        new = np_f(op[5:], m)
+                    except Exception:
+                        new = None  # (the function is not defined on what this expansion holds: nothing is edited)
+                    if new is not None:
+                        try:
+                            m[...] = new
+                        except ValueError as e:
+                            if "read-only" in str(e):
+                                mats[-1]["edit_error"] = str(e)[:80]
+                        except TypeError:
+                            pass
+                        mats[-1]["held"] = canon(m)
                 elif op == "decoy":
                     build_decoy(schema, case)
                 elif op == "flat":
@@ -809,6 +891,8 @@ def run_impl(case):
                     raise InfraError("bad op %r" % (op,))
             out["mats"] = mats
             out["mat"], out["mkind"] = mats[-1]["mat"], mats[-1]["mkind"]
+            # every expansion read again after all later uses of the column
+            out["reread"] = [canon(m) for m in live]
             if enc == "func":
                 out["calls"] = len(calls)
                 # an impure binding (a counter): "its value repeated" means one value, however
@@ -948,8 +1032,8 @@ def expected_trace(case):
             prefix = "map then expand: " if mapped else "round trip: " if n_mat == 0 else "expanded again: "
             res.append((prefix, None if skip else list(cur)))
             n_mat += 1
-        elif op.startswith("map:") or op == "imap:double":
-            f = "double" if op == "imap:double" else op[4:]
+        elif map_fn(op) is not None:
+            f = map_fn(op)
             if some_at_default:
                 fd = py_f(f, dv) if f_applicable(f, [dv]) else object()
                 if not py_eq(fd, dv):
@@ -961,8 +1045,8 @@ def expected_trace(case):
             if not cur:  # the value as mapped so far
                 v = case["value"]
                 for o in ops_of(case)[: ops_of(case).index(op)]:
-                    if o.startswith("map:") or o == "imap:double":
-                        v = py_f("double" if o == "imap:double" else o[4:], v)
+                    if map_fn(o) is not None:
+                        v = py_f(map_fn(o), v)
             cur = [v] * int(op[4:])
     return res
 
@@ -1050,6 +1134,18 @@ def oracle(case, out):
                 n = n_last[-1] if n_last else case["length"]
                 if cm is not None and (len(cm) != n or any(x != cm[0] for x in cm)):
                     return "function column does not repeat one value of its binding :: a counting binding expands to %r" % (cm[:6],)
+    # an expansion is a sequence of its own: it does not follow what happens to the column afterwards, and the
+    # column does not follow what the caller does with it (the unchanged tree hands out a fresh array every time)
+    for k, got in enumerate(mats):
+        if "reread" in out and k < len(out["reread"]) and "held" in got and not wire.same(out["reread"][k], got["held"]):
+            return "an expansion handed out earlier changed with later uses of the column (it is tied to the stored form) :: expansion %d was %r, after the later uses it reads %r" % (
+                k, got["held"][:6], out["reread"][k][:6])
+    for k, got in enumerate(mats):
+        if got.get("edit_error"):
+            return "an expansion cannot be edited by the caller (it is not an array of its own) :: expansion %d: %s" % (k, got["edit_error"])
+        if got.get("alias"):
+            return "an expansion is not an array of its own (shares memory with the stored form or another expansion, or is read-only) :: expansion %d: %s" % (
+                k, ", ".join(got["alias"]))
     return None
 
 
@@ -1066,8 +1162,25 @@ def scalar_ok(v):
     if isinstance(v, int):
         return -(2**63) <= v < 2**63
     if isinstance(v, float):
-        return not (v == 0 and math.copysign(1, v) < 0)
+        return True  # (-0.0 included: oracle only, see `has_neg_zero`)
     return False
+
+
+def is_neg_zero(v):
+    return isinstance(v, float) and v == 0 and math.copysign(1, v) < 0
+
+
+def has_neg_zero(case):
+    """A negative zero among the case's values / default / constant.  0.0 == -0.0: every encoding may keep either as
+    the representative of both (the first of a run, the dictionary entry, the default), so the round trip is judged
+    with Python equality and the sign of a zero is not part of it; the model compares floats by bit pattern on the
+    wire, so these cases are oracle-only, and only value-level functions are applied (`str` tells the signs apart)."""
+    vs = [case.get("value"), case.get("default")]
+    if isinstance(case.get("values"), list):
+        vs += case["values"]
+    if isinstance(case.get("mix"), list):
+        vs += [p[0] for p in case["mix"] if isinstance(p, list) and p]
+    return any(is_neg_zero(v) for v in vs)
 
 
 def homogeneous(values):
@@ -1099,6 +1212,10 @@ def valid_case(c):
     f = c.get("f")
     if f is not None and (f not in FUNCS + DTYPE_FUNCS or c["enc"] == "func"):
         return False
+    if has_neg_zero(c) and ((f is not None and f not in MIX_FUNCS) or "mix" in c or any(
+            map_fn(o) is not None and map_fn(o) not in MIX_FUNCS + ("inc",) for o in c.get("ops", []) or [])
+            or any(isinstance(o, str) and o.startswith("edit:") for o in c.get("ops", []) or [])):
+        return False
     if c["enc"] in ("const", "func"):
         if not (isinstance(c.get("length"), int) and not isinstance(c.get("length"), bool) and 0 <= c["length"] <= 200000):
             return False
@@ -1107,7 +1224,7 @@ def valid_case(c):
         if isinstance(c["value"], bytes):
             # bytes only as the value of a column declared BLOB (numpy's bytes dtype drops trailing NULs)
             if declared(c) in (False, (None, None)) or declared(c)[0] != "BLOB" or c["value"].endswith(b"\x00") \
-                    or f is not None or any(o.startswith(("map:", "imap:")) for o in c.get("ops", []) if isinstance(o, str)):
+                    or f is not None or any(o.startswith(("map:", "imap:", "iset:", "edit:")) for o in c.get("ops", []) if isinstance(o, str)):
                 return False
         elif not scalar_ok(c["value"]):
             return False
@@ -1736,8 +1853,8 @@ def k01_class(case):
     stages = [cur]
     try:
         for op in ops_of(case):
-            if isinstance(op, str) and (op.startswith("map:") or op == "imap:double"):
-                cur = [py_f("double" if op == "imap:double" else op[4:], x) for x in cur]
+            if map_fn(op) is not None:
+                cur = [py_f(map_fn(op), x) for x in cur]
                 stages.append(cur)
     except Exception:
         pass
@@ -1822,6 +1939,37 @@ def dtype_correspondence(ctx, c, out):
             ctx.disagree(c, {"expansion": k, "values_dtype": v, "default_dtype": d, "result_dtype": r}, {"result_dtype": want},
                          what="dtype of the expansion")
             return
+
+
+_SESSION_CACHE = {}
+
+
+def session_correspondence(ctx, c, out):
+    """The heap model (`Enc.session` with the origin of the expansion read off the source and the translated
+    `materialize` as decoder) against the implementation, on the cases that are exactly that session: expand, map
+    the stored values in place, read the first expansion again, expand again."""
+    ops = c.get("ops")
+    if not ops or len(ops) != 3 or ops[0] != "mat" or ops[2] != "mat" or c["enc"] not in ("rle", "dict", "const"):
+        return
+    f = map_fn(ops[1])
+    if f not in FUNCS or ops[1].startswith("map:") or set(c) - {"enc", "values", "value", "length", "ops"}:
+        return
+    xs = [c["value"]] if c["enc"] == "const" else list(c["values"])
+    if len(xs) > 200 or any(isinstance(v, bytes) or (isinstance(v, str) and v.endswith("\x00")) for v in xs) \
+            or (c["enc"] == "dict" and None in xs and len(xs) >= 2) or len(out.get("reread", [])) != 2:
+        return
+    line = "C09 session " + wire.line(c["enc"], f, xs, c.get("length", 0))
+    if line not in _SESSION_CACHE:
+        text = ctx.model.one(line)
+        if not text.startswith("ok"):
+            raise InfraError("model rejected the session %r: %r" % (c, text))
+        _SESSION_CACHE[line] = [canon(x) for x in wire.dec_all(text[2:])]
+    want = _SESSION_CACHE[line]
+    got = [out["reread"][0], out["mats"][1]["mat"]]
+    ctx.hit("session-correspondence:" + c["enc"])
+    if not wire.same(got, want):
+        ctx.disagree(c, {"first_expansion_at_the_end": got[0], "second_expansion": got[1]},
+                     {"first_expansion_at_the_end": want[0], "second_expansion": want[1]}, what="session on the heap model")
 
 
 _CTOR_CACHE = {}
@@ -1962,6 +2110,8 @@ def evaluate(ctx, cases):
             dtype_correspondence(ctx, c, out)
             if "type_name" in c or "kw" in c:
                 ctor_correspondence(ctx, c, out)
+            if "ops" in c:
+                session_correspondence(ctx, c, out)
 
 
 # --------------------------------------------------------------------------- generators
@@ -2022,6 +2172,13 @@ def op_sequences(f, f2, enc):
             yield ["map:" + g, "mat", "map:" + h, "mat"]
     if f == "double":
         yield ["mat", "imap:double", "mat"]
+        yield ["mat", "imap:inc", "mat"]
+    if f in ("double", "upper", "not") and enc != "func":
+        # the stored values changed in place / the caller edits its expansion: an expansion handed out is a
+        # sequence of its own (read again at the end of every case), the column does not follow the caller's edits
+        yield ["mat", "iset:" + f, "mat"]
+        yield ["mat", "edit:" + f, "mat"]
+        yield ["mat", "mat", "edit:" + f, "iset:" + f, "mat"]
     if enc in ("const", "func"):
         for k in (0, 1, 4):
             yield ["mat", "len:%d" % k, "mat"]
@@ -2188,6 +2345,49 @@ def extreme_float_cases(nmax):
             yield {"enc": "dict", "values": vs}
             for d in (None, -1, -2, 0):
                 yield {"enc": "sparse", "values": vs, "default": d}
+
+
+# zero with both signs: 0.0 == -0.0, so one run / one dictionary entry / the default stands for both
+SIGNED_ZERO_ALPHABETS = ((0.0, -0.0, 1.5), (-0.0, 0.0, NAN), (0.0, -0.0, None))
+
+
+def signed_zero_cases(nmax):
+    """Every sequence of length 1..nmax holding a negative zero, through RLE, dictionary and sparse columns, as list /
+    float64 / float32 / float16 array (oracle only: Python equality for the round trip, the stored-form clauses under
+    `==` -- adjacent runs differ, dictionary entries are unique, sparse storage excludes the default)."""
+    seen = set()
+    for alpha in SIGNED_ZERO_ALPHABETS:
+        for n in range(1, nmax + 1):
+            for seq in itertools.product(alpha, repeat=n):
+                vs = list(seq)
+                key = repr(vs)
+                if key in seen or not any(is_neg_zero(v) for v in vs):
+                    continue
+                seen.add(key)
+                conts = ("list", "array") if None in vs else ("list", "array", "array:float32", "array:float16")
+                for cont in conts:
+                    extra = {} if cont == "list" else {"container": cont}
+                    yield dict({"enc": "rle", "values": vs}, **extra)
+                    if None not in vs or len(vs) < 2:
+                        yield dict({"enc": "dict", "values": vs}, **extra)
+                    for d in (None, 0.0, -0.0, 0, 1.5):
+                        yield dict({"enc": "sparse", "values": vs, "default": d}, **extra)
+                if n <= 2:
+                    for f in ("double", "halve"):
+                        if f_applicable(f, vs):
+                            yield {"enc": "rle", "values": vs, "f": f}
+                            if None not in vs or len(vs) < 2:
+                                yield {"enc": "dict", "values": vs, "f": f}
+                            yield {"enc": "sparse", "values": vs, "default": -0.0, "f": f}
+                    for ops in (["mat", "mat"], ["copy", "mat"], ["mat", "pickle", "mat"]):
+                        yield {"enc": "rle", "values": vs, "ops": ops}
+                        if None not in vs or len(vs) < 2:
+                            yield {"enc": "dict", "values": vs, "ops": ops}
+                        yield {"enc": "sparse", "values": vs, "default": 0.0, "ops": ops}
+    for n in (0, 1, 3):
+        yield {"enc": "const", "value": -0.0, "length": n}
+        yield {"enc": "func", "value": -0.0, "length": n}
+        yield {"enc": "const", "value": -0.0, "length": n, "f": "double"}
 
 
 # text that differs only in what a normalisation, a strip, a case fold or a fixed-width field would remove
@@ -2494,7 +2694,8 @@ def random_variant(rng, c, kind):
         for _ in range(rng.randint(1, 4)):
             q = rng.random()
             ops.append("mat" if q < 0.4 else "map:" + rng.choice(RANDOM_FUNCS[kind] + ("id", "invert", "tostr", "toint")) if q < 0.8
-                       else rng.choice(["decoy", "flat", "copy", "schema", "pickle", "imap:double"] + (["len:%d" % rng.randint(0, 9)] if c["enc"] in ("const", "func") else [])))
+                       else rng.choice(["decoy", "flat", "copy", "schema", "pickle", "imap:double", "imap:inc", "iset:double", "iset:upper", "iset:not",
+                                        "edit:double", "edit:upper", "edit:not"] + (["len:%d" % rng.randint(0, 9)] if c["enc"] in ("const", "func") else [])))
         c = dict(base, ops=ops + ["mat"])
         # drop the ops that are not applicable where they stand
         while not valid_case(c) and len(c["ops"]) > 1:
@@ -2550,6 +2751,14 @@ def _chunks(it, n):
 
 
 CORPUS = [
+    # wave 7: an expansion handed out, then the stored values mapped in place (the seeded author's inputs), the caller's edit
+    {"enc": "const", "value": 3, "length": 4, "ops": ["mat", "imap:double", "mat"]},
+    {"enc": "const", "value": 1.5, "length": 1, "ops": ["mat", "imap:inc", "mat"]},
+    {"enc": "const", "value": 7, "length": 0, "ops": ["mat", "imap:double", "mat"]},
+    {"enc": "dict", "values": [5, 5, 5], "ops": ["mat", "iset:double", "mat", "edit:double", "mat"]},
+    # wave 6: zero with both signs
+    {"enc": "dict", "values": [0.0, -0.0, 0.0]},
+    {"enc": "dict", "values": [-0.0, 0.0], "container": "array:float32"},
     # witnesses of C09-F01 (fixed) and boundary shapes; run first
     {"enc": "sparse", "values": [1.5, 0.0, 2.5], "default": 0},
     {"enc": "sparse", "values": ["ab", "", "cde"], "default": ""},
@@ -2641,7 +2850,8 @@ def run(ctx):
              "optionally with an element-wise function on the stored values or a sequence of uses of the one column object; "
              "non-trivial = at least two elements; distinct by canonical JSON of the case")
     ctx.note("assumptions", [
-        "element kinds: one kind per sequence (integers within int64, floats without -0.0, text, booleans), optionally with nulls; "
+        "element kinds: one kind per sequence (integers within int64, floats, text, booleans), optionally with nulls; a negative "
+        "zero is Python-equal to 0.0 and may come back as either (scope signed-zeros, oracle only); "
         "or a sequence mixing Python / numpy numeric classes whose values every class of the mixture holds exactly (2 / 2.0 / "
         "numpy.int64(2) / numpy.float32(2), True / 1 / 1.0; integers within 2**53 next to floats, 2**24 next to float32): there the "
         "stored-form clauses are judged on the values as stored (after numpy brought them to one dtype), the round trip at the value "
@@ -2668,6 +2878,7 @@ def run(ctx):
     scope("mixed-classes", mixed_cases(*ctx.scale((3, 2), (4, 3))))
     scope("extreme-floats", extreme_float_cases(ctx.scale(3, 4)))
     scope("unusual-text", unusual_text_cases(ctx.scale(2, 3)))
+    scope("signed-zeros", signed_zero_cases(ctx.scale(3, 4)))
     for n in range(core_n + 1, nmax + 1):
         scope("exhaustive-length-%d" % n, exhaustive_level(n, n <= nmax_map), reserve=6.0)
         if n == core_n + 1:
